@@ -34,6 +34,7 @@ var trUnits = []*trUnit{
 	{pkg: "lib/journal/check", mod: "Check", funcs: []string{"Checker.open", "Checker.posting", "Checker.balance", "Checker.close"}},
 	{pkg: "lib/model/price", mod: "Price", funcs: []string{
 		"Multiply", "newNormalizedPrices", "Prices.addPrice", "Prices.Insert", "NormalizedPrices.Price", "NormalizedPrices.Valuate",
+		"Prices.normalize", "Prices.Normalize",
 	}},
 }
 
@@ -166,7 +167,7 @@ func (t *trTranslator) mutParams(f *trFunc) {
 	}
 	c := &trCtx{t: t, fn: f, names: map[types.Object]string{}, used: map[string]bool{}}
 	assigned := map[types.Object]bool{}
-	for _, o := range c.assignedIn(f.decl.Body) {
+	for _, o := range c.assignedIn2(true, f.decl.Body) {
 		assigned[o] = true
 	}
 	f.mut, f.mutObjs = nil, nil
@@ -299,6 +300,7 @@ func (t *trTranslator) translateFunc(f *trFunc) {
 	term := c.stmts(body, end)
 	params = append(params, c.extraParams...)
 	f.norder = len(c.extraParams)
+	f.extras = c.extraTypes
 	ret := f.resType
 	if f.effect {
 		ret = "Outcome " + f.resType
